@@ -85,8 +85,9 @@ def validate_trace(trace_path, scratch, heap="3g", timeout=3600):
     rejects = _tuples(out, "REJECT")
     stats = parse_stats(out)
     if rc != 0 or not done or stats is None:
-        tail = "\n".join(out.splitlines()[-40:])
-        raise MachineryError("TLC failed on %s (rc=%s)\n%s" % (trace_path, rc, tail))
+        lines = out.splitlines()
+        k = next((i for i, ln in enumerate(lines) if ln.startswith("Error:")), max(0, len(lines) - 40))
+        raise MachineryError("TLC failed on %s (rc=%s)\n%s" % (trace_path, rc, "\n".join(lines[k:k + 45])))
     n, rej = done[-1][1], done[-1][2]
     if rej != len(rejects):
         raise MachineryError("reject count mismatch on %s: DONE says %s, %s REJECT lines" % (trace_path, rej, len(rejects)))
